@@ -142,15 +142,37 @@ Definition trig_banned (sm : sessmap) (x : state) (o : op) : Prop :=
   | None => False
   end.
 
-(* requests whose handler makes more than one store write, or ignores a store error:
-   under a fault plan these can leave a partial write (#6-#9) *)
-Definition multi_write (o : op) : bool :=
-  match o with OPub _ _ _ | ODelMsg _ _ _ | OSub _ _ _ | OSetSub _ _ _ => true | _ => false end.
+(* a subscriber with O in the grant but not in want: his next own {sub}/{set sub} with O accepts the ownership *)
+Definition pending (p0 : pud) : Prop := is_owner (p_given p0) = true /\ is_owner (p_want p0) = false.
 
-Definition fault_free (f : fault) : Prop := f = NoFault.
+Definition cur_cache (x : state) : cache := match ca x with Some c => c | None => load (st x) end.
+
+(* requests whose handler makes more than one store write, or ignores a store error: under a fault
+   plan these can leave a partial write (#6-#9).  Excluded: a fault in a publish or a delete that is
+   not already the first store call; any fault in the own {sub}/{set sub} of a pending transferee. *)
+Definition fault_ok (sm : sessmap) (f : fault) (x : state) (o : op) : Prop :=
+  match o with
+  | OPub _ _ _ | ODelMsg _ _ _ => f = NoFault \/ fails f 1 = true
+  | OSub sid _ _ | OSetSub sid _ _ =>
+    f = NoFault \/ match alookup (sess_uid sm sid) (c_users (cur_cache x)) with Some p => ~ pending p | None => True end
+  | _ => True
+  end.
 
 (* a step that is free of every known trigger *)
 Definition safe_step (sm : sessmap) (f : fault) (x : state) (o : op) : Prop :=
   known sm o /\
-  ~ trig_note_read sm x o /\ ~ trig_readless_pub sm x o /\ ~ trig_offline_setsub x o /\
-  (multi_write o = true -> f = NoFault).
+  ~ trig_note_read sm x o /\ ~ trig_readless_pub sm x o /\ ~ trig_offline_setsub x o /\ fault_ok sm f x o.
+
+(* a history all of whose steps are free of the known triggers (judged in the state each step starts from) *)
+Section SafeRun.
+Variable dr : Z -> list (Z * Z) -> option (list (Z * Z)).
+Variable nr : list (Z * Z) -> list (Z * Z).
+Variable sm : sessmap.
+Fixpoint safe_run (x : state) (h : list (fault * op)) : Prop :=
+  match h with
+  | [] => True
+  | fo :: r => safe_step sm (fst fo) x (snd fo) /\ safe_run (fst (step_f dr nr sm x fo)) r
+  end.
+(* the answer to a request in a state *)
+Definition answer (f : fault) (x : state) (q : op) : out := snd (step dr nr sm f x q).
+End SafeRun.
